@@ -16,3 +16,8 @@ pub unsafe fn madvise(addr: *mut c_void, len: size_t, advice: c_int) -> c_int {
 pub unsafe fn close(fd: c_int) -> c_int {
     unsafe { crate::verif_env::close(fd) }
 }
+#[cfg(kani)]
+pub unsafe fn sysconf(name: c_int) -> c_long {
+    // _SC_PAGESIZE is the only name a10 asks for
+    4096
+}
